@@ -65,6 +65,7 @@ static void mcx_viol(const char * sig, const char * fmt, ...) {
     char msg[1024];
     va_list ap;
     va_start(ap, fmt); vsnprintf(msg, sizeof msg, fmt, ap); va_end(ap);
+    if (!mcx_cur || !mcx_cur->keys) { mc_viol(sig, "%s", msg); return; }      /* outside a search: the case is self-contained */
     mcx_render_trace(mcx_cur, mcx_cur->cur_state, mcx_cur->cur_op);
     mc_viol(sig, "%s | history: %s", msg, mcx_tracebuf);
 }
